@@ -12,6 +12,7 @@ LEVEL_TEXT = ("Cross-process digest monitoring: a fixed item set (core-grammar s
               "annotate_types and lineage. Every output is digested; the driver requires byte-identical digests across all "
               "processes, and inside each process the same item is computed with fresh components and with Parser / Generator / "
               "Tokenizer / MappingSchema objects reused since process start (also after calls that raised).")
+LEVEL_TEXT += (" Per dialect one Tokenizer / Parser / Generator is kept over that dialect's harvested statements (own order per process) and compared, including token positions, with components created per statement.")
 LEVEL_NOTE = "diff() edit order is the documented exception and is not part of the item set"
 TECHNIQUE = "runtime monitoring: output digests compared across processes (hash seeds x call orders) and fresh vs reused components"
 RULE = ("fixed item set per VERIF_SEED replayed in N processes (distinct hash seeds and permutations); non-trivial = item whose "
